@@ -241,3 +241,5 @@ def run(ctx, rep):
         b = _get(F, rep, "C06.end", path)
         if b is not None:
             rep.check("C06.end", "%s reports InvalidSeek when the stream ends before the target" % path, len(agg_sites(b, "Error", "InvalidSeek")) >= 1, loc_of(b))
+    from rules import castlib
+    rep.floor("C06.cast", "narrowing casts inspected", castlib.cast_audit(ctx, rep, "C06", ['decode.rs']), 4)
